@@ -148,7 +148,7 @@ fn sweep(ctx: &Ctx) {
         }
     }
     // the alloc-only (serial) build
-    let nostd = std::path::Path::new(crate::runner::VERIF_ROOT).join("harness-nostd/target/fast/nostd-digest");
+    let nostd = std::path::Path::new(crate::runner::verif_root()).join("harness-nostd/target/fast/nostd-digest");
     if nostd.exists() {
         let mut cmd = Command::new(&nostd);
         if thorough {
